@@ -598,6 +598,8 @@ class Gen:
         if k == "elem":
             idx = self.index_expr(n)
             rhs = self.real_expr(2)
+            if self.chance(20):
+                rhs = C(self.choice(REAL_CONSTS))      # a[k] <- 7: the subscript is the only thing read
             if rhs[0] == "call":
                 # the builder turns "x <- f(...)" into a call statement, whose assignees must be plain variables
                 rhs = normal(["sum", rhs, C(1)])
@@ -979,6 +981,62 @@ class Gen:
         self.features.add("acc_loop")
         return [["assign", x, None, normal(["sum", V(x), step]), [hdr]]]
 
+    def op_repeated_arg(self):
+        """One statement in which the same argument expression, itself containing a call, occurs twice:
+        x <- g(g(a) + 1) + g(g(a) + 1), or r1, r2 <- two(g(a)) next to a second g(a)."""
+        if not (self.p["calls"] and self.p["nested_calls"] and self.p["recall"]):
+            return []
+        name = self.fresh_or_existing(REAL, self.REAL_TEMPS, [n for n in P_REAL if self.types.get(n) == REAL])
+        if name is None:
+            return []
+        inner = ["call", "<func>g", [self.real_leaf()], {}]
+        arg = normal(["sum", inner, C(self.choice([1, 2, 0.5]))]) if self.chance(70) else inner
+        a, b = ["call", "<func>g", [arg], {}], ["call", "<func>g", [arg], {}]
+        if self.p["kwargs"] and self.chance(30):
+            b = ["call", "<func>g", [], {"x": arg}]
+        rhs = normal([self.choice(["sum", "sum", "prod"]), a, b])
+        self.define(name, REAL)
+        self.features.add("repeated_arg")
+        self.features.add("nested_call")
+        return [["assign", name, None, rhs, []]]
+
+    def op_guarded_loop_call(self, depth):
+        """if v > c: a[i] <- a[i] + g(i - 2)  [loop]   with v mentioned by the guard only (and, in the
+        adversarial name pool, named like a generated temporary)."""
+        if not (self.p["calls"] and self.p["nested_calls"] and self.p["loops"] and self.p["arrays"] and self.p["ifs"]):
+            return []
+        if depth >= self.p["max_depth"]:
+            return []
+        reals = [n for n in self.names_of(REAL) if n not in ("<t>", "<dt>")]
+        adv = [n for n in reals if n in ADVERSARIAL["real"]]
+        ops = []
+        if self.p["name_pool"] == "adversarial" and not adv:
+            cand = [n for n in ADVERSARIAL["real"] if self.types.get(n, REAL) == REAL]
+            if cand:
+                v = "tmp" if "tmp" in cand and self.chance(50) else self.choice(cand)
+                ops.append(["assign", v, None, self.real_leaf(), []])
+                self.define(v, REAL)
+                adv = [v]
+        pool = adv or reals
+        if not pool:
+            return ops
+        v = self.choice(pool)
+        arrs = self.names_of("arr_indexable")
+        if not arrs:
+            ops += self.op_new_array(depth)
+            arrs = self.names_of("arr_indexable")
+            if not arrs:
+                return ops
+        a = self.choice(arrs)
+        n = self.defined[a][1]
+        lv = self.choice(self.LV)
+        arg = normal(["sum", V(lv), C(self.choice([-2, -1, 0.5, 1.5]))])
+        rhs = normal(["sum", ["sub", V(a), [V(lv)]], ["call", "<func>g", [arg], {}]])
+        loop = ["assign", a, [V(lv)], rhs, [[lv, C(0), self.bound_tree(n)]]]
+        cond = ["cmp", V(v), self.choice([">", "<", ">=", "!="]), C(self.choice([0, 1, 2, -1]))]
+        self.features.update(["loop", "if", "guarded_loop_call", "nested_call", "self_update"])
+        return ops + [["if", cond, [loop], None]]
+
     def op_recall(self):
         """The same call, spelled identically, before and after one of its operands changes."""
         if not (self.p["calls"] and self.p["recall"]):
@@ -1072,6 +1130,8 @@ class Gen:
             special = []
             if self.p["recall"] and self.p["calls"]:
                 special += ["recall"]
+                if self.p["nested_calls"]:
+                    special += ["repeated_arg", "guarded_loop_call"]
             if self.p["triangular"] and self.p["arrays"] and self.p["loops"]:
                 special += ["tri"]
             if self.p["acc_loops"] and self.p["loops"]:
@@ -1083,7 +1143,11 @@ class Gen:
             k = self.choice(kinds)
             if k == "special":
                 k = self.choice(special)
-            if k == "accloop":
+            if k == "repeated_arg":
+                new = self.op_repeated_arg()
+            elif k == "guarded_loop_call":
+                new = self.op_guarded_loop_call(depth)
+            elif k == "accloop":
                 new = self.op_acc_loop()
             elif k == "stencil":
                 new = self.op_stencil(depth)
